@@ -5,7 +5,8 @@ from pcv import core, capio, geo, setbuild
 from pcv.props import c12_region
 
 P = "PcVerif.Props.C12."
-THEOREMS = [P + t for t in ["vtt_settings_arith", "vtt_settings_no_padding", "vtt_align_names", "vtt_settings_verbatim", "region_attrs_roundtrip", "region_attrs_roundtrip_exact", "alignment_attrs_roundtrip", "default_alignment_pinned", "layout_gets_own_region"]]
+THEOREMS = [P + t for t in ["vtt_settings_arith", "vtt_settings_no_padding", "vtt_align_names", "vtt_settings_verbatim", "region_attrs_roundtrip", "region_attrs_roundtrip_exact", "alignment_attrs_roundtrip", "default_alignment_pinned", "layout_gets_own_region",
+                            "vtt_settings_origin_only", "vtt_settings_no_origin", "vtt_settings_mixed_units_refused"]]
 HAL = [None, "left", "center", "right", "start", "end"]
 VAL = [None, "top", "center", "bottom"]
 PCT = [0, 10, 12.5, 33.33, 50, 80, 16.1, 20.1, 66.1, 70.1]
